@@ -25,12 +25,12 @@ Tag(c, t) == IF c THEN <<>> ELSE <<t>>
 
 ObsCounted(st) == [s \in {st.gset[i].m : i \in 1..Len(st.gset)} |->
                      (CHOOSE i \in 1..Len(st.gset) : st.gset[i].m = s) \in {i \in 1..Len(st.gset) : st.gset[i].valid}]
-ObsKeys(st)    == [s \in Members |-> st.keys[s]]
+ObsKeys(st)    == [s \in KeyHolders |-> st.keys[s]]
 ObsRSet(st)    == {st.rset[i].m : i \in 1..Len(st.rset)}
 ObsSigValid(st) == st.recSigValid /\ st.recRandValid /\ st.checkSig = ""
 
 KindOrder == <<"otherHash", "replay", "garbage", "offcurve", "badRand", "emptyRand", "swapped", "shiftRandom", "shiftSmall",
-              "selfGarbage", "selfOther", "selfSender", "announceOther", "underOtherKey", "announce", "nonMember", "honest">>
+              "staleShare", "selfGarbage", "selfOther", "selfSender", "announceOther", "announceOutsider", "underOtherKey", "announce", "nonMember", "honest">>
 RECURSIVE JoinKinds(_, _, _)
 JoinKinds(S, i, sep) == IF i > Len(KindOrder) THEN ""
                         ELSE IF KindOrder[i] \in S THEN sep \o KindOrder[i] \o JoinKinds(S, i + 1, "+")
@@ -61,9 +61,12 @@ JudgeMsg(e) ==
            /\ f.sigValidForSigned = SigOK(m) /\ f.sigValidForH = ValidForH(m)
            /\ f.randValid = RandOK(m)), "Proj.facts:" \o m.kind) \o
       (* the key shares are checked against: a stored key is never replaced, and it is the member's own *)
-      Tag(\A s \in Members : keys[s] # "none" => ks2[s] = keys[s], "Inv.KeyTableFirstWins:" \o m.kind) \o
+      Tag(\A s \in KeyHolders : keys[s] # "none" => ks2[s] = keys[s], "Inv.KeyTableFirstWins:" \o m.kind) \o
       Tag(\A s \in Members : ks2[s] \in {"none", "genuine"} \/ ks2[s] = keys[s], "Inv.KeyTableGenuine:" \o m.kind) \o
-      Tag(ks2 = KeysAfter(keys, m, FALSE) \/ \E s \in Members : ks2[s] = "other", "Step.keys:" \o m.kind) \o
+      (* an entry for a node outside the group matters for the statement only through the shares it lets in
+         (Inv.OnlyValidShares:nonMember); the entry itself is reported as an observation *)
+      Tag(ks2[Outsider] = "none" \/ ks2[Outsider] = keys[Outsider], "Ext.KeyTableHoldsOnlyMembers:" \o m.kind) \o
+      Tag(ks2 = KeysAfter(keys, m, FALSE) \/ \E s \in KeyHolders : ks2[s] = "other", "Step.keys:" \o m.kind) \o
       (* clause 1: only the sender's valid share for this block's hash, with a valid beacon share, from a member *)
       Tag(~NewlyInvalid(e), "Inv.OnlyValidShares:" \o m.kind) \o
       (* clause 2: once the threshold is reached the recovered signatures verify under the group key *)
@@ -72,7 +75,10 @@ JudgeMsg(e) ==
              (IF allValid THEN "allSharesValid"
               ELSE "withInvalidShare/" \o CulpritStr(IF NewlyInvalid(e) THEN culprits \cup {m.kind} ELSE culprits))) \o
       (* conformance with the reference handler *)
-      Tag(ref => added, "Step.refused:" \o m.kind) \o
+      (* an honest member's valid share, checked against its genuine key, while the round can still take
+         it, is counted: otherwise the threshold cannot be reached although nobody is faulty (last clause) *)
+      Tag((ref /\ Honest(m)) => added, "Inv.ValidShareIsCounted:" \o m.kind) \o
+      Tag((ref /\ ~Honest(m)) => added, "Step.refused:" \o m.kind) \o
       Tag((added /\ ~ref) => NewlyInvalid(e), "Step.added:" \o m.kind) \o
       Tag(\A s \in Dom(counted) : s \in Dom(cnt2) /\ cnt2[s] = counted[s], "Step.entryChanged") \o
       Tag(st.recovered = (Cardinality(Dom(cnt2)) >= KThr), "Step.recoveredAtThreshold") \o
@@ -80,12 +86,17 @@ JudgeMsg(e) ==
       Tag(st.recovered = st.rrecovered /\ st.recovered = st.canProceed, "Step.flags")
 
 (* clause 3, at the end of a sequence (spec variables = last observation, hist = the messages) *)
-JudgeEnd(e) == Tag(OneFaultTolerated, "Inv.OneFaultTolerated:" \o CulpritStr(culprits))
+(* the clause speaks of a single faulty MEMBER: a sequence in which a node outside the group acts alone is
+   reported as an observation beyond the statement, one with a faulty member and an outsider is not judged *)
+JudgeEnd(e) == IF ~OutsiderActive THEN Tag(OneFaultTolerated, "Inv.OneFaultTolerated:" \o CulpritStr(culprits))
+               ELSE IF FaultyMembers = {} THEN Tag(OneFaultTolerated, "Ext.OutsiderCannotBlockFinalisation:" \o CulpritStr(culprits))
+               ELSE <<>>
 
 JudgeStart(e) == Tag(e.k = KThr /\ e.n = NMem, "Start.threshold")
 
 Judge(e) ==
   CASE e.event = "Start" -> JudgeStart(e)
+    [] e.event = "Prelude" -> <<>>      \* what this process did before: rounds of other blocks / other groups
     [] e.event = "Msg"   -> JudgeMsg(e)
     [] e.event = "End"   -> JudgeEnd(e)
     [] OTHER             -> <<"unknown-event">>
